@@ -90,6 +90,9 @@ func devUnit(args []string) {
 					fmt.Println(r.Res.Output)
 					if sel := os.Getenv("GOVC_DUMPOB"); sel == "" || strings.Contains(r.Ob.Name, sel) {
 						os.WriteFile("/tmp/fail.smt2", []byte(u.Script(r.Ob, r.FailPart)), 0o644)
+						for d := 1; d <= 3; d++ {
+							os.WriteFile(fmt.Sprintf("/tmp/fail_f%d.smt2", d), []byte(u.ScriptDepth(r.Ob, r.FailPart, d)), 0o644)
+						}
 					}
 				}
 			}
